@@ -222,7 +222,7 @@ def step (st0 : St) (ws : List String) : St × String :=
           | .ok [] => "0:ENOENT"
           | .ok l => s!"{l.length}:0"
           | .error f => faultStr f
-        fin { st with t := t2 } ("inv" ++ tok r1 ++ " /" ++ tok r2 ++ env ++ " sz=99 gmnull=" ++ gm)
+        fin { st with t := t2 } ("inv" ++ tok r1 ++ " /" ++ (tok r2).replace ":0" ":kept" ++ env ++ " sz=99 gmnull=" ++ gm)
   | ["lock"] => fin st (s!"locked size {size t} nested=ENOENT" ++ (if st.ts then " held=1 after=0" else " nolock"))
   | ["end"] => fin { t := init (mkOpts "0" "0" "0" "0"), cur := Cursor.zero, live := true, fresh := false } "end live=0 bad=0"
   | _ => fin st "bad-op"
